@@ -21,6 +21,8 @@ opaque!(PendingFunctionCall);
 pub struct SerialMap<T> { _p: core::marker::PhantomData<T> }
 
 // ---- messages -------------------------------------------------------------------------------------------
+//@item core/src/message/create_bus_listener.rs struct CreateBusListener
+//@item core/src/message/create_bus_listener_reply.rs struct CreateBusListenerReply
 //@item core/src/message/destroy_bus_listener.rs struct DestroyBusListener
 //@item core/src/message/destroy_bus_listener_reply.rs enum DestroyBusListenerResult
 //@item core/src/message/destroy_bus_listener_reply.rs struct DestroyBusListenerReply
@@ -33,6 +35,13 @@ pub struct SerialMap<T> { _p: core::marker::PhantomData<T> }
 
 // protocol minor version that introduced each message kind sent by these handlers (0 = base protocol 1.14)
 impl IntoMessage for DestroyBusListenerReply { open spec fn min_minor() -> u32 { 0 } }
+impl IntoMessage for CreateBusListenerReply { open spec fn min_minor() -> u32 { 0 } }
+
+// random UUIDv4 cookie: freshness w.r.t. live listeners is ASSUMED at the creation site (see create_bus_listener)
+impl BusListenerCookie {
+    #[verifier::external_body]
+    pub fn new_v4() -> (r: Self) { unimplemented!() }
+}
 impl IntoMessage for StopBusListenerReply { open spec fn min_minor() -> u32 { 0 } }
 
 // ---- BusListener: real struct, methods ASSUMED with the contracts verified in unit broker_bus_listener -----------
@@ -40,6 +49,7 @@ impl IntoMessage for StopBusListenerReply { open spec fn min_minor() -> u32 { 0 
 //@item broker/src/bus_listener.rs struct BusListener
 
 impl BusListener {
+    //@fn-from broker_bus_listener broker/src/bus_listener.rs BusListener::new
     //@fn-from broker_bus_listener broker/src/bus_listener.rs BusListener::conn_id
     //@fn-from broker_bus_listener broker/src/bus_listener.rs BusListener::clear_filters
     //@fn-from broker_bus_listener broker/src/bus_listener.rs BusListener::stop
@@ -65,6 +75,7 @@ impl BusListener {
 
 impl ConnectionState {
     //@include _shared/conn_state_specs.rs
+    //@fn-from broker_conn_state broker/src/broker/conn_state.rs ConnectionState::add_bus_listener
     //@fn-from broker_conn_state broker/src/broker/conn_state.rs ConnectionState::remove_bus_listener
 
     // sending only pushes into the connection's outgoing queue (interior mutability); no broker state changes.
@@ -92,6 +103,7 @@ impl Broker {
             old(self).bl_inv(),
         ensures
             final(self).bl_inv(),
+            old(self).bl_owners_connected() ==> final(self).bl_owners_connected(),
             final(self).bl_same_rest(old(self)),
             final(self).bus_listeners@ == old(self).bus_listeners@.remove(cookie),
             final(self).conns@.dom() == old(self).conns@.dom(),
@@ -108,9 +120,9 @@ impl Broker {
 
     //@fn broker/src/broker.rs Broker::destroy_bus_listener
         requires
-            old(self).bl_inv(),
+            old(self).bl_inv(), old(self).bl_owners_connected(),
         ensures
-            final(self).bl_inv(),
+            final(self).bl_inv(), final(self).bl_owners_connected(),
             final(self).bl_same_rest(old(self)),
             final(self).conns@.dom() == old(self).conns@.dom(),
             // only the owning connection can destroy a listener
@@ -125,9 +137,9 @@ impl Broker {
 
     //@fn broker/src/broker.rs Broker::stop_bus_listener
         requires
-            old(self).bl_inv(),
+            old(self).bl_inv(), old(self).bl_owners_connected(),
         ensures
-            final(self).bl_inv(),
+            final(self).bl_inv(), final(self).bl_owners_connected(),
             final(self).bl_same_rest(old(self)),
             final(self).conns@ == old(self).conns@,
             final(self).bus_listeners@.dom() == old(self).bus_listeners@.dom(),
@@ -145,9 +157,9 @@ impl Broker {
 
     //@fn broker/src/broker.rs Broker::add_bus_listener_filter
         requires
-            old(self).bl_inv(),
+            old(self).bl_inv(), old(self).bl_owners_connected(),
         ensures
-            final(self).bl_inv(),
+            final(self).bl_inv(), final(self).bl_owners_connected(),
             final(self).bl_same_rest(old(self)),
             final(self).conns@ == old(self).conns@,
             final(self).bus_listeners@.dom() == old(self).bus_listeners@.dom(),
@@ -162,9 +174,9 @@ impl Broker {
 
     //@fn broker/src/broker.rs Broker::remove_bus_listener_filter
         requires
-            old(self).bl_inv(),
+            old(self).bl_inv(), old(self).bl_owners_connected(),
         ensures
-            final(self).bl_inv(),
+            final(self).bl_inv(), final(self).bl_owners_connected(),
             final(self).bl_same_rest(old(self)),
             final(self).conns@ == old(self).conns@,
             final(self).bus_listeners@.dom() == old(self).bus_listeners@.dom(),
@@ -179,9 +191,9 @@ impl Broker {
 
     //@fn broker/src/broker.rs Broker::clear_bus_listener_filters
         requires
-            old(self).bl_inv(),
+            old(self).bl_inv(), old(self).bl_owners_connected(),
         ensures
-            final(self).bl_inv(),
+            final(self).bl_inv(), final(self).bl_owners_connected(),
             final(self).bl_same_rest(old(self)),
             final(self).conns@ == old(self).conns@,
             final(self).bus_listeners@.dom() == old(self).bus_listeners@.dom(),
@@ -192,6 +204,43 @@ impl Broker {
                 &&& final(self).bus_listeners@[req.cookie].filters@ == Set::<BusListenerFilter>::empty()
                 &&& final(self).bus_listeners@[req.cookie].scope == old(self).bus_listeners@[req.cookie].scope
             },
+    //@end
+
+    // ---- create_bus_listener ------------------------------------------------------------------------------------------
+    //@fn broker/src/broker.rs Broker::create_bus_listener
+        requires
+            old(self).bl_inv(), old(self).bl_owners_connected(),
+        ensures
+            final(self).bl_inv(), final(self).bl_owners_connected(),
+            final(self).bl_same_rest(old(self)),
+            final(self).conns@.dom() == old(self).conns@.dom(),
+            !old(self).conns@.contains_key(*id) ==> final(self).bus_listeners@ == old(self).bus_listeners@ && final(self).conns@ == old(self).conns@,
+            old(self).conns@.contains_key(*id) ==> {
+                // either the reply could not be sent and nothing is created ...
+                ||| (r is Err && final(self).bus_listeners@ == old(self).bus_listeners@ && final(self).conns@ == old(self).conns@)
+                // ... or exactly one listener is registered under a cookie no live listener uses: owned by the requester, without
+                // filters and NOT started (it produces nothing until it is started)
+                ||| (r is Ok && exists|cookie: BusListenerCookie| #![trigger final(self).bus_listeners@.contains_key(cookie)] {
+                        &&& !old(self).bus_listeners@.contains_key(cookie)
+                        &&& final(self).bus_listeners@.dom() =~= old(self).bus_listeners@.dom().insert(cookie)
+                        &&& final(self).bus_listeners@[cookie].conn_id == *id
+                        &&& final(self).bus_listeners@[cookie].scope is None
+                        &&& final(self).bus_listeners@[cookie].filters@ == Set::<BusListenerFilter>::empty()
+                        &&& forall|c: BusListenerCookie| #![trigger final(self).bus_listeners@[c]] old(self).bus_listeners@.contains_key(c) ==> final(self).bus_listeners@[c] == old(self).bus_listeners@[c]
+                        &&& final(self).conns@[*id].bus_listeners@ == old(self).conns@[*id].bus_listeners@.insert(cookie)
+                        &&& final(self).conns@[*id].rest_eq(&old(self).conns@[*id], 8)
+                        &&& forall|k: ConnectionId| #![trigger final(self).conns@[k]] old(self).conns@.contains_key(k) && k != *id ==> final(self).conns@[k] == old(self).conns@[k]
+                    })
+            },
+    //@ghost after `let cookie = BusListenerCookie::new_v4();`
+        // ASSUMPTION (random UUIDv4): the new cookie is not the cookie of a live listener
+        proof { assume(!self.bus_listeners@.contains_key(cookie)); }
+    //@ghost after `.insert(cookie, BusListener::new(id.clone()));`
+        proof {
+            assert(!old(self).bus_listeners@.contains_key(cookie));
+            assert(self.bus_listeners@.contains_key(cookie));
+            assert(self.bus_listeners@.dom() =~= old(self).bus_listeners@.dom().insert(cookie));
+        }
     //@end
 }
 
